@@ -642,9 +642,54 @@ MODE_HANDLER = {"FORWARD_END": "_get_forward_end_params", "FORWARD_RELEASE": "_g
                 "REVERSE_ONESHOT": "_get_reverse_oneshot_params", "REVERSE_LOOP": "_get_reverse_loop_params"}
 
 
+# loop regions handed to the WAV writer, per handler: (start, end) as (loop point, origin) differences, each clamped at 0
+ROLAND_LOOPS = {
+    "_get_forward_end_params": [("sustain_start - start", "sustain_end - start")],
+    "_get_forward_release_params": [("sustain_start - start", "sustain_end - start"), ("release_start - start", "release_end - start")],
+    "_get_oneshot_params": [],
+    "_get_forward_oneshot_params": [("sustain_start - start", "sustain_end - start")],
+    "_get_alternate_params": [("sustain_start - start", "sustain_end - start")],
+    "_get_reverse_oneshot_params": [],
+    "_get_reverse_loop_params": [("sustain_end - start", "sustain_end - sustain_start")],
+}
+
+
+def _roland_loops(ctx, sf):
+    """every loop boundary is a difference of two stored loop points clamped at zero (a damaged record whose points are out of
+    order yields an empty or shortened loop, not a negative sample number the smpl chunk cannot hold)"""
+    from ..core.terms import _split_top, parse_key
+    for h, want in ROLAND_LOOPS.items():
+        fn = ctx.fn(sf, h, "L8r")
+        pts = fn.args.args[1].arg
+        sig = ("start_sample", "end_sample")
+        for p in [p for p in run_paths(ctx, fn, rule="L8r") if p.end == "return"]:
+            got = []
+            okc = True
+            for c, e, st in calls_on(p, name="LoopRegion"):
+                from .util import call_parts
+                fname, pos, kw = call_parts(evaluator(ctx, fn, e).ev(c).key())
+                pair = []
+                for i, nm in enumerate(sig):
+                    v = pos[i] if i < len(pos) else kw.get(nm)
+                    m = re.fullmatch(r"max\((.*)\)", v or "")
+                    parts = _split_top(m.group(1), ",") if m else []
+                    if len(parts) == 2 and "0" in parts:
+                        parts.remove("0")
+                        pair.append(parse_key(parts[0]))
+                    else:
+                        okc = False
+                        pair.append(None)
+                got.append(tuple(pair))
+            wt = [tuple(parse_key(f"{pts}.{a.split(' - ')[0]}") - parse_key(f"{pts}.{a.split(' - ')[1]}") for a in w) for w in want]
+            ok = okc and got == wt
+            ctx.ob("L8r", fn, f"{h}: loop regions are the stored loop points relative to the window start, each clamped at 0", ok,
+                   "" if ok else f"loop regions {[tuple(x.key() if x is not None else 'unclamped' for x in g) for g in got]}", inst=f"{h}:loops")
+
+
 def rule_L8r(ctx):
     """Roland loop mode -> data window (offset = 2*start, size = 2*(END - start + 1)), reversed for the two reverse modes"""
     sf = RO + "sample_file.py"
+    _roland_loops(ctx, sf)
     W = ctx.const(RO + "data_types.py", "ROLAND_SAMPLE_WIDTH", "L8r")
     for h, (endp, rev) in ROLAND_MODES.items():
         fn = ctx.fn(sf, h, "L8r")
